@@ -31,6 +31,7 @@ RT, AT = 1e-8, 1e-10  # solver pairs / guesses / schedules, same tightened NLBGS
 RT_XSOLVER, AT_XSOLVER = 1e-7, 1e-9  # across different nonlinear solvers (Newton's residual norm differs)
 RT_ROUNDTRIP = 1e-7
 RT_ISOL, AT_ISOL = 1e-9, 1e-11
+ZERO_SCALE_UNIT = 1.0
 NEWTON_ATOL = 5e-8  # the *other* flight point after editing one: one more warm sweep
 
 AS_VARIANTS = [
@@ -343,15 +344,40 @@ def _generate(seed, tier, opts):
         pts = []
         for _ in range(npts):
             pts.append(draw_point(model, pts, rng, nprng))
+        with_special = [i for i in model.inputs if i.special]
+        sweep = None
+        if with_special and rng.random() < 0.35:
+            # special-value sweep: one base point, and for every input that has exact special values (zero thrust, zero
+            # body rates, zero sideslip, load factor 1, empty tanks ...) the same point with that one input on a special
+            # value; visited base, variant, base, variant ... - the discrete branches of the model are entered and left
+            # with everything else unchanged, which is where "previously analysed design point" defects live
+            base = pts[0]
+            for inp in with_special:
+                if any(np.all(base[inp.name] == float(sv)) for sv in inp.special):
+                    base[inp.name] = inp.nom.copy() if not any(np.all(inp.nom == float(sv)) for sv in inp.special) else base[inp.name]
+            pts = [base]
+            for inp in rng.sample(with_special, min(len(with_special), 5)):
+                q = {k: np.array(v, dtype=float, copy=True) for k, v in base.items()}
+                q[inp.name] = np.full(inp.nom.shape, float(rng.choice(inp.special)))
+                pts.append(q)
+            npts = len(pts)
+            sweep = []
+            for i in range(1, npts):
+                sweep += [i, 0]
         case["points"] = [_jsonable_point(p) for p in pts]
         case["solver"] = [rng.choice(NL_KINDS), rng.choice(LIN_KINDS)] if rng.random() < 0.6 else ["nlbgs_aitken", "direct"]
         # visits: set a design point, (spoil the guess), (abort), converge, (crash-restart into another
         # solver pair and converge again)
         ops = []
         prev = None
-        for v in range(rng.randint(2, 5) if tier != "thorough" else rng.randint(2, 9)):
+        nvis = rng.randint(2, 5) if tier != "thorough" else rng.randint(2, 9)
+        if sweep is not None:
+            nvis = 1 + len(sweep)
+        for v in range(nvis):
             cands = [i for i in range(npts) if i != prev] or [0]
             k = rng.choice(cands) if rng.random() < 0.8 else rng.randrange(npts)
+            if sweep is not None:
+                k = 0 if v == 0 else sweep[v - 1]
             prev = k
             ops.append({"op": "set_point", "k": k})
             if rng.random() < 0.45:
@@ -409,7 +435,12 @@ def _cmp_outputs(live, ref, rt, at, restrict=None, rename=None):
             continue
         if lk not in live:
             continue
-        atol = at * cs.get(k.rsplit(".", 1)[0], 0.0)
+        csk = cs.get(k.rsplit(".", 1)[0], 0.0)
+        # a component whose reference outputs are all exactly zero has no scale of its own (the constant zero angles of
+        # the Prandtl-Glauert frame sit in an IndepVarComp *inside* the coupled group; Newton treats them as states and
+        # its LU leaves 1e-22 .. 2e-16 degrees there, round-off of the *other* states' magnitude): such a component is
+        # compared on the scale of one unit of its variables
+        atol = at * (csk if csk > 0.0 else ZERO_SCALE_UNIT)
         ok, err, scale = obs.cmp_arrays(live[lk], rv, rt, atol)
         if not ok:
             bad.append((k, err, scale))
